@@ -1,0 +1,10 @@
+//go:build !verif
+// +build !verif
+
+package scheduler
+
+func verifPass(*Scheduler, *ExecutionGraph) {}
+
+func verifStatus(*Stage, int32) {}
+
+func verifSchedule(*Scheduler, *ExecutionGraph, bool, error) {}
